@@ -14,6 +14,7 @@ Definition wlen (SIZE : Z) (s : fb) : Z := SIZE - write_index s.
 
 (* normal form: an empty buffer sits at offset 0 (established by every constructor, kept by every call) *)
 Definition nf (s : fb) : Prop := read_index s = write_index s -> write_index s = 0.
+Definition Inv2 (SIZE : Z) (s : fb) : Prop := Inv SIZE s /\ nf s.
 
 Lemma zlen_unread SIZE s : Inv SIZE s -> zlen (unread s) = len_ s.
 Proof. intros (H1&H2&H3&H4&H5). unfold unread, len_. apply zlen_slice; lia. Qed.
